@@ -455,6 +455,15 @@ func (m *mutator) mutate() string {
 			return ""
 		}
 		l := cands[m.pick("lit", len(cands))]
+		if m.pick("switchkind", 4) == 0 {
+			// a literal of another kind (type-checks e.g. as an argument of panic, or of an interface parameter)
+			alt := []struct {
+				k token.Token
+				v string
+			}{{token.INT, "42"}, {token.STRING, `"s"`}, {token.CHAR, "'x'"}, {token.FLOAT, "1.5"}}[m.pick("altkind", 4)]
+			l.Kind, l.Value = alt.k, alt.v
+			return "change-literal-kind"
+		}
 		if l.Kind == token.INT {
 			l.Value = []string{"0", "1", "255", "256", "4294967296", "18446744073709551615", "0x10", "1_000"}[m.pick("intval", 8)]
 		} else {
